@@ -539,8 +539,8 @@ class Hdf5Saver:
         obj_reduce = getattr(obj, '__reduce__', None)
         if obj_reduce is not None:
             rv = obj_reduce()
-            if isinstance(rv, str):
-                h5gr = self.save_global(obj, REPR_GLOBAL)
+            if isinstance(rv, str):  # name of a global variable holding `obj`
+                h5gr = self.save_global(obj, path, REPR_GLOBAL, qualname=rv)
                 return h5gr
             if not isinstance(rv, tuple) or not 2 <= len(rv) < 7:
                 raise Hdf5ExportError(f'Wrong return value of {obj_reduce!r}')
@@ -804,10 +804,11 @@ class Hdf5Saver:
 
     dispatch_save[Hdf5Ignored] = (save_ignored, REPR_IGNORED)
 
-    def save_global(self, obj, path, type_repr):
+    def save_global(self, obj, path, type_repr, qualname=None):
         """Save a global object like a function or class."""
         module = obj.__module__
-        qualname = obj.__qualname__
+        if qualname is None:
+            qualname = obj.__qualname__
         try:
             obj2 = find_global(module, qualname)
         except (ImportError, KeyError, AttributeError):
